@@ -117,15 +117,15 @@ class Monitor:
         if isinstance(v, (list, tuple)):
             if depth <= 0:
                 return "[..%d]" % list.__len__(v) if isinstance(v, list) else "(..)"
-            it = list.__iter__(v) if isinstance(v, list) else tuple.__iter__(v)
+            it = list.copy(v) if isinstance(v, list) else tuple(v)
             return "[" + ",".join(self.fp(x, depth - 1) for x in it) + "]"
         if isinstance(v, dict):
             if depth <= 0:
                 return "{..%d}" % dict.__len__(v)
-            return "{" + ",".join("%s:%s" % (self.fp(k, 0), self.fp(dict.__getitem__(v, k), depth - 1))
-                                  for k in dict.__iter__(v)) + "}"
+            return "{" + ",".join("%s:%s" % (self.fp(k, 0), self.fp(x, depth - 1))
+                                  for k, x in list(dict.items(v))) + "}"
         if isinstance(v, (set, frozenset)):
-            it = set.__iter__(v) if isinstance(v, set) else frozenset.__iter__(v)
+            it = set.copy(v) if isinstance(v, set) else v
             return "{" + ",".join(sorted(self.fp(x, depth - 1) for x in it)) + "}"
         if t is types.MethodType:
             return "m:" + getattr(v.__func__, "__name__", "?")
@@ -143,15 +143,17 @@ class Monitor:
         return "new:" + t.__name__
 
     def content_fp(self, c):
+        # snapshots are taken by ONE C-level call (atomic under the GIL): other threads may be
+        # mutating the container while the monitor looks at it
         if isinstance(c, list):
-            return "[" + ",".join(self.fp(x, 2) for x in list.__iter__(c)) + "]"
+            return "[" + ",".join(self.fp(x, 2) for x in list.copy(c)) + "]"
         if isinstance(c, dict):
-            return "{" + ",".join("%s:%s" % (self.fp(k, 0), self.fp(dict.__getitem__(c, k), 2))
-                                  for k in dict.__iter__(c)) + "}"
-        return "{" + ",".join(sorted(self.fp(x, 2) for x in set.__iter__(c))) + "}"
+            return "{" + ",".join("%s:%s" % (self.fp(k, 0), self.fp(v, 2))
+                                  for k, v in list(dict.items(c))) + "}"
+        return "{" + ",".join(sorted(self.fp(x, 2) for x in set.copy(c))) + "}"
 
     def _snap(self, d):
-        return {k: self.fp(v, 2) for k, v in d.items() if _is_state_attr(k, v)}
+        return {k: self.fp(v, 2) for k, v in list(d.items()) if _is_state_attr(k, v)}
 
     # ------------------------------------------------------------------ the hooks' common part
     def before(self, lab, obj):
@@ -189,20 +191,15 @@ class Monitor:
         if changed and kind:
             tl.log.append((kind, lab + ".__dict__", _agg(new), _agg(old)))
 
-    def log_read(self, lab, obj, name, val):
-        if not self.log_reads:
-            return
-        tl = self.tls
+    def read_event(self, lab, obj, name, val):
         if name == "__dict__":
             d = _vars_of(obj)
-            tl.log.append(("r", lab + ".__dict__", _agg(self._snap(d)) if d is not None else "?"))
-        else:
-            tl.log.append(("r", lab + "." + name, self.fp(val, 2)))
+            return ("r", lab + ".__dict__", _agg(self._snap(d)) if d is not None else "?")
+        return ("r", lab + "." + name, self.fp(val, 2))
 
-    def log_write(self, lab, obj, name, val, old):
-        """primary event of a __setattr__ gate point, then what else changed in vars(obj)"""
+    def after_write(self, lab, obj, name):
+        """after the primary event of a __setattr__ gate point: what else changed in vars(obj)"""
         tl = self.tls
-        tl.log.append(("w", lab + "." + name, self.fp(val, 2), old))
         d = _vars_of(obj)
         if d is not None and self.diff:
             oldsnap = self.snap.get(id(obj), {})
@@ -294,7 +291,7 @@ def _is_state_attr(k, v):
 
 def _cheap_sig(d):
     return tuple([(k, id(v), len(v) if type(v) in (list, dict, set) else 0)
-                  for k, v in d.items() if k[:2] != "__"])
+                  for k, v in list(d.items()) if k[:2] != "__"])
 
 
 def _agg(snap):
@@ -311,26 +308,30 @@ def _mk_get(mon, base_get):
         lab = mon.labels.get(id(self))
         if lab is None:
             return base_get(self, name)
+        # the event is logged AT the gate point (a slot is reserved and filled in afterwards):
+        # reading a computed attribute (validators, __properties__) runs nested accesses, and the
+        # position in the log must be the position in the sequence of gate points
+        slot = -1
         tl.busy = True
         try:
             mon.before(lab, self)
+            if mon.log_reads:
+                slot = len(tl.log)
+                tl.log.append(("r", lab + "." + name, "<raised>"))
         finally:
             tl.busy = False
         try:
             val = base_get(self, name)
         except AttributeError:
+            if slot >= 0:
+                tl.log[slot] = ("r", lab + "." + name, "<absent>")
+            raise
+        if slot >= 0:
             tl.busy = True
             try:
-                if mon.log_reads:
-                    tl.log.append(("r", lab + "." + name, "<absent>"))
+                tl.log[slot] = mon.read_event(lab, self, name, val)
             finally:
                 tl.busy = False
-            raise
-        tl.busy = True
-        try:
-            mon.log_read(lab, self, name, val)
-        finally:
-            tl.busy = False
         return val
     return __getattribute__
 
@@ -350,13 +351,17 @@ def _mk_set(mon, base_set, base_get):
             mon.before(lab, self)
             d = _vars_of(self)
             old = mon.fp(d[name], 2) if d is not None and name in d else "<absent>"
+            slot = len(tl.log)
+            tl.log.append(("w", lab + "." + name, "<raised>", old))
         finally:
             tl.busy = False
         base_set(self, name, value)        # may run a property setter (monitored itself)
         tl.busy = True
         try:
             d = _vars_of(self)
-            mon.log_write(lab, self, name, d[name] if d is not None and name in d else value, old)
+            new = d[name] if d is not None and name in d else value
+            tl.log[slot] = ("w", lab + "." + name, mon.fp(new, 2), old)
+            mon.after_write(lab, self, name)
         finally:
             tl.busy = False
     return __setattr__
@@ -375,12 +380,17 @@ def _mk_del(mon, base_del, base_get):
         tl.busy = True
         try:
             mon.before(lab, self)
+            d = _vars_of(self)
+            old = mon.fp(d[name], 2) if d is not None and name in d else "<absent>"
+            slot = len(tl.log)
+            tl.log.append(("w", lab + "." + name, "<raised>", old))
         finally:
             tl.busy = False
         base_del(self, name)
         tl.busy = True
         try:
-            mon.log_write(lab, self, name, "<absent>", "?")
+            tl.log[slot] = ("w", lab + "." + name, "<absent>", old)
+            mon.after_write(lab, self, name)
         finally:
             tl.busy = False
     return __delattr__
@@ -414,21 +424,27 @@ def _wrap_container(mon, f, is_write):
         lab = mon.labels.get(id(self))
         if lab is None:
             return f(self, *a, **k)
+        slot = -1
         tl.busy = True
         try:
             mon.before(lab, None)
-            old = mon.content_fp(self) if is_write else None
+            if is_write:
+                old = mon.content_fp(self)
+                slot = len(tl.log)
+                tl.log.append(("w", lab + ".*", old, old))
+            elif mon.log_reads:
+                slot = len(tl.log)
+                tl.log.append(("r", lab + ".*", mon.content_fp(self)))
         finally:
             tl.busy = False
+        if not is_write:
+            return f(self, *a, **k)
         try:
             return f(self, *a, **k)
         finally:
             tl.busy = True
             try:
-                if is_write:
-                    tl.log.append(("w", lab + ".*", mon.content_fp(self), old))
-                elif mon.log_reads:
-                    tl.log.append(("r", lab + ".*", mon.content_fp(self)))
+                tl.log[slot] = ("w", lab + ".*", mon.content_fp(self), old)
             finally:
                 tl.busy = False
     method.__name__ = getattr(f, "__name__", "method")
